@@ -32,6 +32,7 @@ type resp struct {
 	OK    bool `json:"ok"`
 	Chain bool `json:"chain"`
 	Cerr  bool `json:"cerr"` // the consumer hit by this response returns an error
+	Empty bool `json:"empty"` // successful response with an empty body
 }
 type prog struct {
 	Pre   int      `json:"pre"`
@@ -80,6 +81,9 @@ func consumerErr(body []byte) error {
 func respBody(r resp, k int) []byte {
 	if !r.OK {
 		return nil
+	}
+	if r.Empty {
+		return []byte{}
 	}
 	b := []byte{byte(r.ID), byte(k), 0, 0}
 	if r.Chain {
